@@ -42,6 +42,8 @@ class Arr:
     layermask: bool = False  # stacked value whose mask differs per layer (each layer keeps its own input's mask)
     unguarded: frozenset = E  # layer selections whose (selection - FUZZY_MIN) divides this value without a guarding where()
     maskalias: frozenset = E  # inputs whose mask buffer this value's mask may share (numpy.ma.array(x, mask=m) does not copy m)
+    validof: frozenset = E  # boolean array that is the negation of these values' masks: true exactly at their valid cells
+    hardmask: bool = False  # harden_mask() in force: item stores cannot uncover missing cells (A26)
 
 
 @dataclass(frozen=True)
@@ -84,6 +86,16 @@ class Other:
 # operand keeps its mask (the numpy.ma forms of the domain-limited ones can only add missing cells)
 FLOAT_UFUNCS = frozenset("sqrt cbrt exp exp2 expm1 log log2 log10 log1p sin cos tan arcsin arccos arctan sinh cosh tanh arcsinh arccosh arctanh deg2rad rad2deg degrees radians fabs".split())
 UNARY_UFUNCS = FLOAT_UFUNCS | frozenset("abs absolute negative positive rint round round_ around floor ceil trunc sign square reciprocal conjugate".split())
+
+
+_NEG = {"LtE": "Gt", "Lt": "GtE", "Gt": "LtE", "GtE": "Lt", "Eq": "NotEq", "NotEq": "Eq"}
+
+
+def negate_cmp(c):
+    """the comparison recorded on a boolean array, negated (NaN cells aside)"""
+    if c is None or c[1] not in _NEG:
+        return None
+    return (c[0], _NEG[c[1]]) + tuple(c[2:])
 
 
 class Kw(object):
@@ -469,8 +481,65 @@ class Interp(object):
             return False
         return None
 
+    def refine_range(self, t, want, fr):
+        """`lo <= x.min()` / `x.max() <= hi` known true on this branch: the non-missing cells of x lie within those bounds"""
+        if isinstance(t, ast.UnaryOp) and isinstance(t.op, ast.Not):
+            return self.refine_range(t.operand, not want, fr)
+        if isinstance(t, ast.BoolOp):
+            if (isinstance(t.op, ast.And) and want) or (isinstance(t.op, ast.Or) and not want):
+                for v in t.values:
+                    self.refine_range(v, want, fr)
+            return
+        if not (isinstance(t, ast.Compare) and want):
+            return
+        terms = [t.left] + list(t.comparators)
+        for (l, op, r) in zip(terms, t.ops, terms[1:]):
+            for small, big, strict_ok in (((l, r, True) if isinstance(op, (ast.LtE, ast.Lt)) else (r, l, True) if isinstance(op, (ast.GtE, ast.Gt)) else (None, None, False)),):
+                if small is None:
+                    continue
+                # small <= big
+                for bound, call, which in ((small, big, "lo"), (big, small, "hi")):
+                    if isinstance(call, ast.Call) and isinstance(call.func, ast.Attribute) and call.func.attr == ("min" if which == "lo" else "max") and not call.args and not call.keywords and isinstance(call.func.value, ast.Name):
+                        x = fr.env.get(call.func.value.id)
+                        try:
+                            b = self.ev(bound, fr)
+                        except Unsupported:
+                            continue
+                        if isinstance(x, Arr) and isinstance(b, Scal) and scal_id(b) is not None:
+                            lo, hi = x.rng
+                            new = replace(x, rng=(scal_id(b), hi) if which == "lo" else (lo, scal_id(b)))
+                            self.rebind(call.func.value, x, new, fr)
+
+    def refine_nomask(self, t, want, fr):
+        """`getmask(y) is nomask` known true on this branch: y has no missing cell, so every array is (vacuously) missing wherever
+        y is - y's coverage tokens are added to every masked array of the frame"""
+        if isinstance(t, ast.UnaryOp) and isinstance(t.op, ast.Not):
+            return self.refine_nomask(t.operand, not want, fr)
+        if not (isinstance(t, ast.Compare) and len(t.ops) == 1 and isinstance(t.ops[0], (ast.Is, ast.IsNot))):
+            return
+        l, r = t.left, t.comparators[0]
+        qn = self.q(r, fr) if isinstance(r, (ast.Name, ast.Attribute)) else None
+        if qn not in ("numpy.ma.nomask", "numpy.ma.core.nomask"):
+            l, r = r, l
+            qn = self.q(r, fr) if isinstance(r, (ast.Name, ast.Attribute)) else None
+        if qn not in ("numpy.ma.nomask", "numpy.ma.core.nomask"):
+            return
+        is_nomask = want == isinstance(t.ops[0], ast.Is)
+        if not is_nomask:
+            return
+        try:
+            m = self.ev(l, fr)
+        except Unsupported:
+            return
+        if isinstance(m, Arr) and m.isbool and m.maskof and m.M:
+            for k, v in list(fr.env.items()):
+                if isinstance(v, Arr) and v.kind == "masked":
+                    fr.env[k] = replace(v, M=v.M | m.M)
+
     def refine(self, test, take, fr):
         """branch refinement: `if x is not None`, `if "K" in kwargs`"""
+        self.refine_range(test, take, fr)
+        self.refine_nomask(test, take, fr)
         t = test
         neg = False
         while isinstance(t, ast.UnaryOp) and isinstance(t.op, ast.Not):
@@ -796,6 +865,11 @@ class Interp(object):
             self.unsupported("in-place update through %s" % type(node).__name__, node, fr)
 
     def setitem(self, base, idx, v, tnode, fr):
+        if isinstance(v, Other) and v.tag == "global" and str(v.info) in ("numpy.ma.masked", "numpy.ma.core.masked") and base.kind == "masked":
+            # A27: `x[idx] = numpy.ma.masked` only marks cells missing (data untouched).  With the mask of y as the index, x is
+            # missing wherever y is from then on
+            gained = idx.M if (isinstance(idx, Arr) and idx.isbool and idx.maskof) else E
+            return replace(base, M=base.M | gained)
         D, Pc, Pg = base.D, base.Pc, base.Pg
         if isinstance(idx, Arr) and idx.isbool:
             self.res.selstores.append((tnode, idx.cmp, idx, v, self.fkey(fr)))
@@ -832,7 +906,11 @@ class Interp(object):
                     continue
                 break
         M = base.M
-        if base.kind == "masked":
+        if base.kind == "masked" and base.hardmask:
+            pass  # A26: a hard mask keeps every missing cell through item stores
+        elif base.kind == "masked" and isinstance(idx, Arr) and idx.isbool and idx.validof & (base.alias | base.dataof):
+            pass  # only cells that are not missing are selected: the store uncovers nothing
+        elif base.kind == "masked":
             # A9 (amended): a store of an unmasked value clears the (soft) mask at the selected cells.  Cells whose *index*
             # entry is masked keep their mask, so coverage survives only for inputs whose mask the index itself carries.
             vM = v.M if isinstance(v, Arr) and v.kind == "masked" else E
@@ -998,7 +1076,8 @@ class ArrayInterp(Interp):
                 return Other("bool", (not st) if st is not None else None)
             if isinstance(v, Arr):
                 if isinstance(e.op, ast.Invert):
-                    return replace(v, alias=self.S(e), rng=(None, None), cmp=None, maskof=E, dataof=E)
+                    return replace(v, alias=self.S(e), rng=(None, None), cmp=negate_cmp(v.cmp), maskof=E, dataof=E, validof=v.maskof if v.isbool else E,
+                                   M=E if (v.isbool and v.maskof) else v.M)
                 return replace(v, alias=self.S(e), rng=(None, None), cmp=None, maskof=E, dataof=E, sel=None)
             if isinstance(v, Scal):
                 c = None
@@ -1476,6 +1555,8 @@ class ArrayInterp(Interp):
             sym = None
             if isinstance(op, ast.Sub) and a.sym and b.sym and a.sym.startswith("len(") and a.sym.endswith(":all)") and b.sym.startswith("kw:"):
                 sym = "rest(%s)" % b.sym  # the number of inputs minus a count parameter: how many layers are left out
+            elif isinstance(op, ast.Sub) and a.sym and b.sym and a.sym.startswith("len(") and a.sym.endswith(":all)") and b.sym.startswith("rest(kw:"):
+                sym = b.sym[5:-1]  # n - (n - k) = k
             return Scal(D=a.D | b.D, Pg=a.Pg | b.Pg, dt=dt, const=const, nonfinite=nonfin, sym=sym)
         if isinstance(a, Lst) and isinstance(b, Lst):
             if a.what == "shape" or b.what == "shape":
@@ -1549,7 +1630,16 @@ class ArrayInterp(Interp):
             divisor = a if swapped else b
             if isinstance(divisor, Arr) and divisor.sel and isinstance(divisor.sel, tuple) and divisor.sel and divisor.sel[0] in ("Top", "Bottom", "Layer"):
                 ung = ung | {divisor.sel}
-        return Arr(unguarded=ung, kind=kind, isbool=isbool, alias=a.alias if inplace else self.S(node), M=M, D=a.D | bD, Pc=Pc, Pg=Pg, shape=shape, dt=dt,
+        cmp_ = None
+        validof_ = E
+        if isbool and isinstance(op, ast.BitOr) and isinstance(b, Arr) and b.isbool and (a.cmp is None) != (b.cmp is None):
+            cmp_ = a.cmp if a.cmp is not None else b.cmp  # `mask | (data == v)`: true at least where the comparison holds
+        if isbool and isinstance(op, ast.BitAnd) and isinstance(b, Arr) and b.isbool:
+            # `valid & (data > hi)`: true only at valid cells, and only where the comparison holds
+            validof_ = a.validof | b.validof
+            if (a.cmp is None) != (b.cmp is None):
+                cmp_ = a.cmp if a.cmp is not None else b.cmp
+        return Arr(cmp=cmp_, validof=validof_, unguarded=ung, kind=kind, isbool=isbool, alias=a.alias if inplace else self.S(node), M=M, D=a.D | bD, Pc=Pc, Pg=Pg, shape=shape, dt=dt,
                    dtprov=a.dtprov if inplace else a.dtprov | getattr(b, "dtprov", E), rng=(None, None), sel=a.sel if not isinstance(b, Arr) else (a.sel, b.sel) if (a.sel or b.sel) else None,
                    sorted0=False, filearr=a.filearr, maskof=a.maskof if inplace else E, dataof=a.dataof if inplace else E,
                    constmask=a.constmask and (not isinstance(b, Arr) or b.constmask))
@@ -1566,6 +1656,24 @@ class ArrayInterp(Interp):
         # super(K, self).execute(**kw)
         if isinstance(f, ast.Attribute) and isinstance(f.value, ast.Call) and isinstance(f.value.func, ast.Name) and f.value.func.id == "super":
             return self.call_super(e, fr)
+        if qn == "builtins.next" and e.args and isinstance(e.args[0], ast.GeneratorExp) and len(e.args[0].generators) == 1 and isinstance(e.args[0].generators[0].target, ast.Name) \
+                and isinstance(e.args[0].elt, ast.Name) and e.args[0].elt.id == e.args[0].generators[0].target.id:
+            # `next((a for a in xs if test(a)), default)`: a probe for the first element with some property; the value is one of the
+            # elements (or the default) - nothing is computed from a filtered list
+            g_ = e.args[0].generators[0]
+            it_ = self.ev(g_.iter, fr)
+            if isinstance(it_, Lst) and it_.what in ("arrs", "cmds"):
+                el_ = self.elem_of(it_, g_.iter, fr)
+                f2_ = Frame(fr.module, fr.func, fr.cls, _copy_env(fr.env), fr.depth)
+                f2_.returns = fr.returns
+                self.assign(g_.target, el_, f2_, e)
+                for c_ in g_.ifs:
+                    self.ev(c_, f2_)
+                dflt = self.ev(e.args[1], fr) if len(e.args) > 1 else None
+                if isinstance(el_, Arr) and it_.part == "all":
+                    # any element: stands for the first one and for the rest alike
+                    el_ = self.join(self.part_elem(replace(it_, part="first")), self.part_elem(replace(it_, part="rest")))
+                return el_ if dflt is None else self.join(el_, dflt)
         fv = None
         if not (isinstance(f, ast.Name) and f.id not in fr.env):
             fv = self.ev(f, fr)
@@ -1894,6 +2002,11 @@ class ArrayInterp(Interp):
             return Other("none")
         if meth in ("soften_mask", "harden_mask", "unshare_mask", "shrink_mask"):
             self.write_site(base, e, "%s()" % meth, fr)
+            if meth in ("soften_mask", "harden_mask"):
+                # A26: while the mask is hard, an item store cannot uncover a missing cell
+                new = replace(base, hardmask=(meth == "harden_mask"))
+                self.rebind(basenode, base, new, fr)
+                return new
             return base
         if meth in ("fill", "itemset", "put", "resize", "partition", "set_fill_value", "setflags", "byteswap"):
             self.write_site(base, e, "%s() mutates the array" % meth, fr)
@@ -1935,6 +2048,26 @@ class ArrayInterp(Interp):
         S = lambda: self.S(e)  # noqa: E731
         a0 = A[0] if A else None
         short = qn.replace("builtins.", "")
+        if qn in ("numpy.result_type", "numpy.promote_types", "numpy.min_scalar_type", "numpy.common_type", "numpy.find_common_type"):
+            dts = []
+            for x in A:
+                if isinstance(x, (Arr, Scal)):
+                    dts.append(x.dt)
+                elif isinstance(x, Lst) and isinstance(x.elem, Arr):
+                    dts.append(x.elem.dt)
+                elif isinstance(x, Other) and x.tag == "dtype" and isinstance(x.info, Arr):
+                    dts.append(x.info.dt)
+                else:
+                    dts = None
+                    break
+            if dts:
+                d0 = dts[0]
+                for d1 in dts[1:]:
+                    d0 = promote(d0, d1)
+                return Other("dtype", Arr(kind="plain", alias=E, dt=d0))
+            return Other("type", "numpy.dtype")
+        if qn in ("numpy.can_cast", "numpy.issubdtype", "numpy.isscalar", "numpy.ma.isMaskedArray", "numpy.ma.isMA", "numpy.ma.isarray", "numpy.iscomplexobj", "numpy.isrealobj", "numpy.shares_memory", "numpy.may_share_memory"):
+            return Other("bool")
         if qn in ("numpy.isclose", "numpy.ma.isclose", "numpy.equal", "numpy.not_equal", "numpy.greater", "numpy.greater_equal", "numpy.less", "numpy.less_equal",
                   "numpy.ma.equal", "numpy.ma.not_equal", "numpy.ma.greater", "numpy.ma.greater_equal", "numpy.ma.less", "numpy.ma.less_equal") and len(A) >= 2 and any(isinstance(x, Arr) for x in A[:2]):
             nm_ = qn.split(".")[-1]
@@ -2086,7 +2219,7 @@ class ArrayInterp(Interp):
             return Other("bool")
         if qn in ("numpy.logical_not", "numpy.invert", "numpy.ma.logical_not"):
             if isinstance(a0, Arr):
-                return replace(a0, alias=S(), M=E if a0.kind != "masked" else a0.M, isbool=True, dt=B_, maskof=E, cmp=None)
+                return replace(a0, alias=S(), M=E if a0.kind != "masked" else a0.M, isbool=True, dt=B_, maskof=E, cmp=negate_cmp(a0.cmp), validof=a0.maskof if a0.isbool else E)
             return Other("bool")
         if qn in ("numpy.abs", "numpy.absolute", "numpy.ma.abs", "numpy.negative", "numpy.sqrt", "numpy.ma.sqrt", "numpy.exp", "numpy.ma.exp", "numpy.log", "numpy.ma.log",
                   "numpy.rint", "numpy.round", "numpy.around", "numpy.floor", "numpy.ceil", "numpy.trunc", "numpy.sign", "numpy.square", "numpy.nan_to_num", "numpy.ma.fix_invalid",
@@ -2372,6 +2505,14 @@ class ArrayInterp(Interp):
                     k2.d[k] = v
                 return k2
             return Kw(K) if K else Other("dict")
+        if short == "isinstance" and len(e.args) == 2 and isinstance(a0, Arr):
+            cq = self.q(e.args[1], fr) if isinstance(e.args[1], (ast.Name, ast.Attribute)) else None
+            if cq in ("numpy.ma.MaskedArray", "numpy.ma.masked_array", "numpy.ma.core.MaskedArray"):
+                # under the inductive hypothesis a data input is a MaskedArray; a value built plain is not
+                if a0.kind == "masked":
+                    return Other("bool", True)
+                if a0.kind == "plain":
+                    return Other("bool", False)
         if short in ("isinstance", "issubclass", "hasattr", "callable", "any", "all"):
             return Other("bool")
         if short in ("str", "repr", "format"):
@@ -2417,6 +2558,13 @@ class ArrayInterp(Interp):
             self.finding("dtype-arg", e, "a string %r is passed as dtype" % (dtv.info,), fr)
         elif dtv is not None and not (isinstance(dtv, Other) and dtv.tag == "none"):
             dt = IF_
+        if isinstance(a0, Arr) and isinstance(mask, Other) and mask.tag == "bool" and mask.info is True:
+            # mask=True: every cell is missing.  Such a value is missing wherever any input is, and no cell of it shows a value
+            # computed from anything: coverage and dependence are those of "all inputs" (vacuously)
+            alltok = frozenset()
+            for nm, (kind_, _x) in self.decl.ref_inputs().items():
+                alltok |= frozenset({nm}) if kind_ == "cmd" else frozenset({nm + "#0", nm + "#r"})
+            return replace(a0, kind="masked", M=alltok, D=alltok, Pc=E, Pg=E, alias=S, dt=dt or a0.dt, constmask=False, maskof=E, dataof=E, rng=(None, None), maskalias=E)
         if isinstance(a0, Arr):
             cov = a0.M if a0.kind == "masked" else E
             shape = a0.shape
